@@ -57,6 +57,8 @@ def parseOp (line : String) : Option Op :=
   | ["rmsent", a] => do some (.rmsent (← n? a))
   | ["err", a, b] => do some (.err (← n? a) (← n? b))
   | ["efun", a, b, c] => do some (.efun (← n? a) (← n? b) (← n? c))
+  | ["clones", a] => do some (.clones (← n? a))
+  | ["unclone", a] => do some (.unclone (← n? a))
   | _ => none
 
 structure Parsed where
@@ -86,6 +88,8 @@ def unitOnly : Op → Bool
   | .oref _ _ => true
   | .newmstr _ _ => true
   | .newstr _ _ => true
+  | .clones _ => true
+  | .unclone _ => true
   | _ => false
 
 def lpcOnly : Op → Bool
@@ -102,27 +106,83 @@ def renderStats (noAllocd : Bool) (st : Stats) : String :=
   let strs := if noAllocd then s!"{st.distinctStrings},-" else s!"{st.distinctStrings},{st.allocdStrings}"
   s!"{st.numArrays},{st.arrayBytes},{st.numMappings},{st.mapNodes},{strs},{st.objects}"
 
-def renderState (noAllocd : Bool) (s : St) : String :=
-  s!"ok r:{renderRefs s.heap} st:{renderStats noAllocd s.stats}"
+/-! ### program counter probe
+
+`program_t.ref` of the harness object's program (width `NV.Gen.C06.progRefBits`; reference_prog / free_prog of
+lib/lpc/program.c): 1 for the blueprint, +1 per clone, -1 when an object structure is deallocated; free_prog
+deallocates the program when the counter reaches 0.  Kept outside the proved heap model: `clones n` creates n
+further clones (only counted), `unclone n` destructs and cleans up n of them one at a time. -/
+
+abbrev PW : Nat := NV.Gen.C06.progRefBits
+
+structure PSt where
+  pref : Nat := 1
+  pfreed : Bool := false
+  anon : Nat := 0
+
+def pInc (p : PSt) (n : Nat) : PSt := { p with pref := (p.pref + n) % 2 ^ PW }
+
+/-- n times free_prog; `none` = the freed program is touched again -/
+def pDec : PSt → Nat → Option PSt
+  | p, 0 => some p
+  | p, n + 1 =>
+    if p.pfreed then none
+    else
+      let r := (p.pref + 2 ^ PW - 1) % 2 ^ PW
+      pDec { p with pref := r, pfreed := r == 0 } n
+
+/-- follow the allocations / deallocations of object structures made by one model step -/
+def pFollow (p : PSt) (before after : Int) : Option PSt :=
+  if after > before then (if p.pfreed then none else some (pInc p (after - before).toNat))
+  else pDec p (before - after).toNat
+
+def renderState (noAllocd : Bool) (s : St) (p : PSt) : String :=
+  let st := { s.stats with objects := s.stats.objects + p.anon }
+  let pr := if p.pfreed then "x" else toString p.pref
+  -- deallocate_program also releases the strings of the program: the string columns are meaningless afterwards
+  let sts := if p.pfreed then
+      s!"{st.numArrays},{st.arrayBytes},{st.numMappings},{st.mapNodes},-,-,{st.objects}"
+    else renderStats noAllocd st
+  s!"ok r:{renderRefs s.heap} st:{sts} p:{pr}"
 
 def applies : Op → Bool
   | .newobj _ => true
   | .sweep => true
+  | .clones _ => true
   | _ => false
 
-def runLines (lpc : Bool) : Bool → St → List Op → List String → List String
-  | _, _, [], acc => acc.reverse
-  | na, s, op :: ops, acc =>
-    if (lpc && unitOnly op) || (!lpc && lpcOnly op) then runLines lpc na s ops ("skip" :: acc)
-    else match step s op with
-      | .ok s' => let na := na || applies op; runLines lpc na s' ops (renderState na s' :: acc)
-      | .skip => runLines lpc na s ops ("skip" :: acc)
-      | .fail e => (e.name :: acc).reverse
+def runLines (lpc : Bool) : Bool → St → PSt → List Op → List String → List String
+  | _, _, _, [], acc => acc.reverse
+  | na, s, p, op :: ops, acc =>
+    if (lpc && unitOnly op) || (!lpc && lpcOnly op) then runLines lpc na s p ops ("skip" :: acc)
+    else match op with
+      | .clones n =>
+        if p.pfreed then ("uaf" :: acc).reverse
+        else
+          let p := { (pInc p n) with anon := p.anon + n }
+          runLines lpc true s p ops (renderState true s p :: acc)
+      | .unclone n =>
+        if p.anon < n || !s.dlist.isEmpty then runLines lpc na s p ops ("skip" :: acc)
+        else match pDec p n with
+          | none => ("uaf" :: acc).reverse
+          | some p' =>
+            let p' := { p' with anon := p.anon - n }
+            runLines lpc na s p' ops (renderState na s p' :: acc)
+      | op =>
+        match step s op with
+        | .ok s' =>
+          match pFollow p s.stats.objects s'.stats.objects with
+          | none => ("uaf" :: acc).reverse
+          | some p' =>
+            let na := na || applies op
+            runLines lpc na s' p' ops (renderState na s' p' :: acc)
+        | .skip => runLines lpc na s p ops ("skip" :: acc)
+        | .fail e => (e.name :: acc).reverse
 
 def runModel (lines : List String) : List String :=
   let p := parseCase lines
   if !p.bad.isEmpty then p.bad.map (fun l => s!"bad-line {l}")
-  else runLines p.lpc p.lpc St.init p.ops []
+  else runLines p.lpc p.lpc St.init {} p.ops []
 
 def runJudge (body : List String) : List String :=
   let (input, impl) := splitJudge body
